@@ -1,9 +1,10 @@
 package main
 
 import (
-	"go/token"
 	"fmt"
+	"go/token"
 	"go/types"
+	"os"
 	"strings"
 
 	"golang.org/x/tools/go/ssa"
@@ -193,7 +194,11 @@ func (en *Engine) external(st *State, fr *Frame, x *ssa.Call, name string, calle
 	_ = ev
 	switch {
 	case ct != nil && ct.TreeMutator:
-		st.treeEpoch++
+		// a tree the path made itself, fed only with nodes it made itself (a copy being re-rooted for a log line), is
+		// not a tree any earlier observation was about
+		if !ownScratchTree(args) {
+			st.treeEpoch++
+		}
 	case ct != nil:
 	case callee != nil && en.P.inModule(callee):
 		if !moduleTreePure(en.P, callee, map[*ssa.Function]bool{}) {
@@ -272,9 +277,10 @@ func (en *Engine) external(st *State, fr *Frame, x *ssa.Call, name string, calle
 }
 
 // iterate models a traversal helper that invokes a handler for every selected element:
-//   Z: the handler is never invoked, result nil;
-//   E: the helper itself fails (non-nil error that is not the handler's);
-//   G: one generic handler invocation whose return value becomes the helper's result.
+//
+//	Z: the handler is never invoked, result nil;
+//	E: the helper itself fails (non-nil error that is not the handler's);
+//	G: one generic handler invocation whose return value becomes the helper's result.
 func (en *Engine) iterate(st *State, fr *Frame, x *ssa.Call, name string, callee *ssa.Function, args []Val, ct *Contract) ([]*State, bool, error) {
 	root := args[ct.IterRoot]
 	h, ok := args[ct.IterHandler].(*ClosureV)
@@ -650,6 +656,24 @@ func moduleTreePure(p *Prog, fn *ssa.Function, seen map[*ssa.Function]bool) bool
 				continue
 			}
 			ct := lookupContract(name)
+			// an etree operation on a tree this very function made (a copy being pretty-printed for a log line) changes no
+			// tree anybody else can see
+			if sn := shortName(name); strings.HasPrefix(sn, "(*etree.") && etreeReadOnly[sn[strings.LastIndex(sn, ".")+1:]] {
+				continue // Copy, Root, FindElement, WriteTo…: reads
+			}
+			if sn := shortName(name); strings.HasPrefix(sn, "(*etree.") && len(ci.Common().Args) > 0 && !ci.Common().IsInvoke() && freshTree(ci.Common().Args[0], 0) {
+				if ct == nil || ct.TreeMutator {
+					ok := true
+					for _, a := range ci.Common().Args[1:] {
+						if isEtreeNodeType(a.Type()) && !freshTree(a, 0) {
+							ok = false // a live node moved into the fresh tree (SetRoot(el), AddChild(el)) is taken out of its own
+						}
+					}
+					if ok {
+						continue
+					}
+				}
+			}
 			if ct == nil {
 				args := ci.Common().Args
 				if ci.Common().IsInvoke() {
@@ -666,6 +690,9 @@ func moduleTreePure(p *Prog, fn *ssa.Function, seen map[*ssa.Function]bool) bool
 				pure = false
 			}
 		}
+	}
+	if os.Getenv("VERIF_DEBUG_PURE") != "" {
+		println("TREEPURE", fn.String(), pure)
 	}
 	treePureCache[fn] = pure
 	return pure
@@ -810,4 +837,30 @@ func reflectTag(tag, key string) string {
 		tag = rest[k+1:]
 	}
 	return ""
+}
+
+
+// ownScratchTree: the receiver is a document / element this path created (etree.NewDocument, NewElement, Copy,
+// NSDetatch) and every other node argument is one too.
+func ownScratchTree(args []Val) bool {
+	if len(args) == 0 {
+		return false
+	}
+	fresh := func(v Val) bool {
+		cv, ok := stripIface(v).(*CallV)
+		if !ok {
+			return false
+		}
+		sn := shortName(cv.Callee)
+		return sn == "etree.NewDocument" || sn == "etree.NewElement" || strings.HasSuffix(sn, ").Copy") || sn == "etreeutils.NSDetatch"
+	}
+	if !fresh(args[0]) {
+		return false
+	}
+	for _, a := range args[1:] {
+		if a != nil && a.Type() != nil && isEtreeNodeType(a.Type()) && !fresh(a) {
+			return false
+		}
+	}
+	return true
 }
